@@ -352,7 +352,93 @@ def _vec_into_iter(ex, c, a, d):
     return ENV_PASS
 
 
+
+def _it_any(ex, c, a, d):
+    """Iterator::any over a list iterator: the predicate is run per item (short-circuit on a concretely true answer; symbolic answers are or-ed)"""
+    from .exec import ENV_PASS
+    it = deref(ex, a[0])
+    if not _is_it(it):
+        return ENV_PASS
+    acc = False
+    for x in _rest(ex, it):
+        r = ex.call_value(ex.top_frame, a[1], [x], "bool")
+        if not isinstance(r, BoolV):
+            return ENV_PASS
+        if r.t is True:
+            return BoolV(True)
+        acc = T.or_(acc, r.t)
+    return BoolV(acc)
+
+
+def _it_enumerate(ex, c, a, d):
+    from .exec import ENV_PASS
+    it = deref(ex, a[0])
+    if not _is_it(it):
+        return ENV_PASS
+    return _owned([AggV((IntV(i, "usize"), x), "(usize, ?)") for i, x in enumerate(_rest(ex, it))])
+
+
+def _it_for_each(ex, c, a, d):
+    from .exec import ENV_PASS
+    from .builtins import _wr
+    it = deref(ex, a[0])
+    if not _is_it(it):
+        return ENV_PASS
+    items = _rest(ex, it)
+    if isinstance(a[0], RefV):       # `(&mut iter).for_each(..)` consumes the rest of the underlying iterator
+        lst, pos = it.fields
+        _wr(ex, a[0], AggV((lst, IntV(len(lst.items), "usize")), it.ty))
+    for x in items:
+        ex.call_value(ex.top_frame, a[1], [x], "()")
+    return UNIT
+
+
+def _it_collect_option_vec(ex, c, a, d):
+    """`iter.collect::<Option<Vec<_>>>()` over a list of Options with concrete discriminants"""
+    from .exec import ENV_PASS, ListV
+    it = deref(ex, a[0])
+    if not _is_it(it) or "Option<" not in c:
+        return ENV_PASS
+    out = []
+    for x in _rest(ex, it):
+        x = deref(ex, x)
+        if not isinstance(x, EnumV) or not isinstance(x.disc, int):
+            return ENV_PASS
+        if x.disc == 0:
+            return mk_option(False, None, d)
+        out.append(x.payload(1)[0])
+    return mk_option(True, ListV(tuple(out), "Vec<?>"), d)
+
+
+def _slice_contains(ex, c, a, d):
+    from .exec import ENV_PASS, ListV
+    l = deref(ex, a[0])
+    x = deref(ex, a[1])
+    if not isinstance(l, ListV) or not isinstance(x, IntV):
+        return ENV_PASS
+    if not all(isinstance(i, IntV) for i in l.items):
+        return ENV_PASS
+    return BoolV(T.or_(*[T.eq(i.t, x.t) for i in l.items]) if l.items else False)
+
+
+def _slice_get(ex, c, a, d):
+    from .exec import ENV_PASS, ListV
+    l = deref(ex, a[0])
+    i = deref(ex, a[1])
+    if not isinstance(l, ListV) or not isinstance(i, IntV) or not isinstance(i.t, int):
+        return ENV_PASS
+    if i.t < len(l.items):
+        return mk_option(True, ex.ctx.ref_to(l.items[i.t]), d)
+    return mk_option(False, None, d)
+
+
 LIST_ADAPTORS2 = [
+    (rx(r" as (?:std::iter::|core::iter::)?Iterator>::any::<"), _it_any),
+    (rx(r" as (?:std::iter::|core::iter::)?Iterator>::enumerate$"), _it_enumerate),
+    (rx(r" as (?:std::iter::|core::iter::)?Iterator>::for_each::<"), _it_for_each),
+    (rx(r" as (?:std::iter::|core::iter::)?Iterator>::collect::<(?:std::option::|core::option::)?Option<"), _it_collect_option_vec),
+    (rx(r"^core::slice::<impl \[.*\]>::contains$"), _slice_contains),
+    (rx(r"^core::slice::<impl \[.*\]>::get::<usize>$"), _slice_get),
     (rx(r" as (?:std::iter::|core::iter::)?Iterator>::filter_map::<"), _it_filter_map),
     (rx(r" as (?:std::iter::|core::iter::)?Iterator>::map::<"), _it_map),
     (rx(r" as (?:std::iter::|core::iter::)?Iterator>::collect::<"), _it_collect),
